@@ -262,6 +262,11 @@ def _work_lemma(task):
     try:
         mod, reg = load(prop)
         repo = core.Repo(repo_path)
+        tgt = getattr(mod.LEMMAS[name], "target", None)
+        if tgt and tgt in repo.fns:
+            fi = repo.fns[tgt]
+            out["info"] = {"file": fi.file, "function": tgt, "source_sha256": fi.sha, "loops": 0,
+                           "kind": "block contract (statements located by pattern in this function)"}
         try:
             vcs = mod.LEMMAS[name](reg, repo)
         except Unsupported as u:
